@@ -165,6 +165,10 @@ MgrNew(cs, cfg) == MgrTasks(cs, cfg)
 MgrAppend(cs, new, cfg) ==
   IF new = <<>> THEN [ok |-> TRUE, err |-> "", cs |-> cs] ELSE MgrTasks(cs \o new, cfg)
 
+\* Hexital._raw_default_candles: what a new timeframe manager is built from -- copies of the
+\* default manager's candles with raw values recovered, no conversion tag, no readings
+RawCopies(cs) == [i \in 1..Len(cs) |-> [Reset(Recover(cs[i])) EXCEPT !.cl = <<>>]]
+
 \* CandleManager.purge(set of names)
 KVRemove(kv, names) ==
   LET keep == {i \in 1..Len(kv.k) : kv.k[i] \notin names}
